@@ -49,6 +49,7 @@ SITE_DEFS = {
     "gr": "function gr(){return a}",
     "gw": "function gw(v){a=v}",
     "H": "var H={__proto__:p,sup(){return super.a},sset(v){super.a=v}}",
+    "slen": "function slen(x,v){x.length=v}",
     "tg": "function tg(x){var s=0;for(var i=0;i<3;i++){var v=x.a;s=s+(typeof v===\"number\"?v:100)}return s}",
 }
 # H (super sites) is always part of the universe: super.a looks the property up on H.[[Prototype]] = p with receiver `this`.
@@ -89,6 +90,8 @@ _op("tg_o", "site", _site("tg(o)"), ["tg"])
 _op("sup_o", "site", _site("H.sup.call(o)"), ["H"])
 _op("sset_o", "site", _site("H.sset.call(o,n++)"), ["H"])
 _op("sset_p", "site", _site("H.sset.call(p,n++)"), ["H"])
+_op("slen1_o", "site", _site("slen(o,1)"), ["slen"])       # x.length = v through SetPropertyByName: on an array this must run ArraySetLength
+_op("slenN_o", "site", _site("slen(o,-1)"), ["slen"])      # RangeError on an array
 _op("gr", "site", _site("gr()"), ["gr"])
 _op("gw", "site", _site("gw(n++)"), ["gw"])
 # --- mutations
@@ -122,6 +125,7 @@ _op("freeze_p", "mut", _mut("FR(p)"))
 _op("o={}", "mut", "o={};")
 _op("o=create(p)", "mut", "o=OC(p);")
 _op("o=[]", "mut", "o=[];")
+_op("o=[3]", "mut", "o=[1,2,3];")
 _op("o=[](p)", "mut", "o=[];SPO(o,p);")
 _op("o=U(p)", "mut", "o=OB();SPO(o,p);")          # Object() gives a unique-shape object
 _op("o=\"xy\"", "mut", "o=\"xy\";")
@@ -166,8 +170,11 @@ CORE_M = CORE_S + ["sset_p", "s_p", "f_p", "del_o.a"]
 # operations on the global object / Object.prototype only (unique shapes)
 GLOBAL = ["get_G", "set_G", "gr", "gw", "G.a=", "del_G.a", "g_G", "s_G", "ro_G", "OP.a=", "del_OP.a"]
 # the operations outside MID plus the sites they interact with
-SPECIAL = [x for x in FULL if x not in MID] + ["get_o", "set_o", "get_p", "p.a=", "del_p.a", "g_p"]
-for _a in (DESIGN24, MID, CORE, CORE_S, CORE_M, GLOBAL, SPECIAL):
+ARRAY_ONLY = ["slen1_o", "slenN_o", "o=[3]"]
+SPECIAL = [x for x in FULL if x not in MID and x not in ARRAY_ONLY] + ["get_o", "set_o", "get_p", "p.a=", "del_p.a", "g_p"]
+# arrays: `length` is an exotic property (ArraySetLength) reached through the ordinary cached store
+ARRAY = ["o=[3]", "o=[]", "o=[](p)", "slen1_o", "slenN_o", "len_o", "get_o", "set_o", "o.a=", "p.length=", "proto_o=p"]
+for _a in (DESIGN24, MID, CORE, CORE_S, CORE_M, GLOBAL, SPECIAL, ARRAY):
     for _x in _a:
         assert _x in OPS, _x
 
